@@ -1,17 +1,26 @@
 """C01 — End-to-end payload delivery between stations through BTP and GeoNetworking.
 
 Theorems: lean/Props/C01.lean (BTP header round trip for all payloads/ports; own packets and duplicates ignored;
-no cross-port delivery; LS buffer flushed in order; `e2e_two_stations`: for every programme of requests issued by
-either of two stations, each handler receives exactly the prescribed deliveries, once, byte-identical, in order).
-Model: lean/FlexModel/Net/{Stack,Flood}.lean.
-Tie: 2–4 REAL stacks (GN router + BTP router + raw port handlers) on an in-memory ether under a virtual clock
-and virtual timers run random request programmes; after every request the new handler invocations of every
-station are compared with the model's (n-station executable flood) and judged by an independent oracle
-(`expected_deliveries`, written from the property text with the harness' own geometry).
+no cross-port delivery; LS buffer flushed in order; `e2e_n_stations`: for every number of stations in mutual range,
+every programme of requests issued by any of them and ANY delivery order of the frames of each exchange, each
+handler receives exactly the prescribed deliveries, once, byte-identical, in request order; `async_exactly_once_n`:
+exactly-once for any interleaving of requests and deliveries; `e2e_two_stations` kept).
+Model: lean/FlexModel/Net/{Stack,Mesh}.lean; the driver executes `Mesh.stepG` (= the theorems' `Mesh.step` for full
+range and plain semantics, `driver_step_is_model_step`) with the code's duplicate ring (8) and SN wrap (65535).
+Tie: 2–5 REAL stacks (GN router + BTP router + raw port handlers) on an in-memory ether under a virtual clock
+and virtual timers run random request programmes - FIFO medium or asynchronous medium with a seeded random delivery
+order per (receiver, frame) pair, single requests and bursts (several requests in the air together, location-service
+lookups answered while other traffic is in flight), SN wrap; after every step the new handler invocations of every
+station (ports, payload, full source position vector, transport type + subtype + area, BTP type) are compared with
+the model's and judged by an independent oracle (`expected_deliveries`, written from the property text with the
+harness' own geometry).
 """
 from __future__ import annotations
 
 import math
+import os
+import random
+import time
 
 from common import Infra, corpus
 import realstack as rs
@@ -31,17 +40,24 @@ TRUSTED = [
     "modelled rather than verified: GN header byte layouts (C02), the geometric area test (C07: the model takes "
     "`inside` as a relation supplied by the harness' own placement), greedy-forwarding geometry, PDR gate, CBF timing "
     "(only handler invocations are compared), location-table expiry (programmes stay below the entry lifetime)",
-    "the unbounded theorem covers two stations with a synchronous reliable medium; 3–4 station meshes and CBF are "
-    "covered by the correspondence runs against the executable n-station model only",
+    "the unbounded theorems (`e2e_n_stations`, `async_exactly_once_n`) are about the plain semantics (unbounded duplicate "
+    "memory and sequence numbers) with every station in range of every other; the driver runs the ring(8)/wrap(65535) "
+    "variant of the same step function; link-down, LS retransmission, CBF and the ring/wrap variant are covered by the "
+    "correspondence runs only",
 ]
 ASSUMPTIONS = [
-    "all stations are within mutual radio range; the medium is reliable and FIFO",
+    "all stations are within mutual radio range; the medium is reliable (every frame reaches every other station "
+    "exactly once) but may deliver in any order",
     "security disabled in this check (security on with a common root is exercised by C03/C05)",
     "store-carry-forward traffic classes: known finding C01-KF1 (forwarding buffers are stubs)",
+    "more than itsGnDPLLength (8) multi-hop packets of one source in flight with a third station forwarding: known "
+    "finding C01-KF2 (duplicate packet list is a ring of 8 per source)",
 ]
 
 PORT_POOL = [2001, 2002, 1, 0, 65535, 32768]
 BASE_MS = 1_700_000_000_000
+DPL_LEN = 8            # itsGnDPLLength (checked against the MIB at run time)
+SN_MOD = 65535         # get_sequence_number: (sn + 1) % (2**16 - 1)
 
 
 # ------------------------------------------------------------------------------------------------
@@ -54,14 +70,37 @@ def offset(lat, lon, north_m, east_m):
     return int(round(lat + dlat * 1e7)), int(round(lon + dlon * 1e7))
 
 
+def dist_m(p, q):
+    """distance in metres between two (lat, lon) [1e-7 deg] points, harness' own planar approximation"""
+    (la1, lo1), (la2, lo2) = p, q
+    c = math.cos(math.radians((la1 + la2) / 2e7))
+    return math.hypot((la1 - la2) / 1e7 * 111_320.0, (lo1 - lo2) / 1e7 * 111_320.0 * c)
+
+
+def lpv_int(pv):
+    """the whole long position vector (address, timestamp, position, PAI, speed, heading) as one number"""
+    return int.from_bytes(pv.encode(), "big")
+
+
+SHAPE_HST = {"gbc": {"circle": GeoBroadcastHST.GEOBROADCAST_CIRCLE, "rect": GeoBroadcastHST.GEOBROADCAST_RECT,
+                     "elip": GeoBroadcastHST.GEOBROADCAST_ELIP},
+             "gac": {"circle": GeoAnycastHST.GEOANYCAST_CIRCLE, "rect": GeoAnycastHST.GEOANYCAST_RECT,
+                     "elip": GeoAnycastHST.GEOANYCAST_ELIP}}
+
+
 class Net:
     """n real stations on the ether + the bookkeeping needed to compare with model and oracle"""
 
     def __init__(self, clock, spec):
         self.clock = clock
         self.vt = eth_mod.VTimers(clock).install()
-        self.ether = eth_mod.Ether()
+        order = spec.get("order") or 0
+        self.order = order
+        links = spec.get("links")
+        self.ether = eth_mod.Ether(links={frozenset(l) for l in links} if links else None,
+                                   order_rng=random.Random(order) if order else None)
         self.st, self.hits, self.ports, self.pos, self.lines = {}, {}, {}, {}, []
+        self.lpv, self.last_gn = {}, {}
         algo = AreaForwardingAlgorithm.CBF if spec["cbf"] else AreaForwardingAlgorithm.SIMPLE
         clat, clon = spec["centre"]
         # area 1: circle r=200 m at the centre (stations placed ≤ 60 m from it are inside, ≥ 800 m outside);
@@ -77,83 +116,156 @@ class Net:
             with rs.quiet():
                 s = st_mod.Station(i, clock, facilities=(), with_ldm=False, lat=lat, lon=lon,
                                    itsGnAreaForwardingAlgorithm=algo)
+            if s.mib.itsGnDPLLength != DPL_LEN:
+                raise Infra("itsGnDPLLength changed: adapt DPL_LEN and the model's ring length")
             s.btp.indication_callbacks = None
             s.btp.pre_indication_callbacks = {}
             hits = []
             for p in sd["ports"]:
-                s.btp.register_indication_callback_btp(p, (lambda pp, h: (lambda ind: h.append((pp, ind))))(p, hits))
+                s.btp.register_indication_callback_btp(
+                    p, (lambda pp, h, kk: (lambda ind: h.append((pp, ind, self.last_gn.get(kk)))))(p, hits, i))
             s.btp.freeze_callbacks()
+            # tap the GN-level indication (destination area, next header) on its way to the BTP router
+            s.gn.indication_callback = (lambda kk, fwd: (lambda gi: (self.last_gn.__setitem__(kk, gi), fwd(gi))[1]))(
+                i, s.btp.btp_data_indication)
             self.ether.attach(i, s)
-            self.st[i], self.hits[i], self.ports[i], self.pos[i] = s, hits, list(sd["ports"]), lat
-            self.lines.append(f"station {i} {lat + 900000000} {s.mib.itsGnDefaultHopLimit} {','.join(map(str, sd['ports']))}")
+            self.st[i], self.hits[i], self.ports[i], self.pos[i] = s, hits, list(sd["ports"]), (lat, lon)
+            self.lpv[i] = lpv_int(s.gn.ego_position_vector)
+            self.lines.append(f"station {i} {self.lpv[i]} {s.mib.itsGnDefaultHopLimit} {','.join(map(str, sd['ports']))}")
         for (a, i), v in sorted(self.inside.items()):
             if v:
                 self.lines.append(f"inside {a} {i}")
+        for l in links or []:
+            self.lines.append(f"link {l[0]} {l[1]}")
+        self.nstep = 0
 
     def close(self):
         self.vt.uninstall()
 
+    def seed(self):
+        """seed of the model's delivery schedule for the next step (0 = FIFO, like the real ether in FIFO mode)"""
+        self.nstep += 1
+        return 0 if not self.order else (self.order * 7919 + self.nstep * 104729) % 2147483647 or 1
+
     def settle(self):
         """deliver everything in the air, letting CBF timers expire (LS retransmission timers stay pending)"""
-        for _ in range(50):
+        for _ in range(80):
             self.ether.pump()
             cbf = [t for _, t in self.vt.pending() if getattr(t.function, "__name__", "") == "_cbf_timeout"]
-            if not cbf and not self.ether.queue:
+            if not cbf and not self.ether.queue and not self.ether.pairs:
                 return
             if cbf:
                 self.vt.advance(150, after_each=self.ether.pump)
         raise Infra("network does not settle")
 
-    def issue(self, i, req):
-        """req = dict(btpB, dport, info, payload, tr, arg, hl, scf). returns canonical new deliveries per station"""
-        before = {k: len(v) for k, v in self.hits.items()}
+    def btp_request(self, req):
         tr, arg = req["tr"], req["arg"]
         kw = {}
         if tr == "shb":
             ptt = PacketTransportType(header_type=HeaderType.TSB, header_subtype=TopoBroadcastHST.SINGLE_HOP)
         elif tr in ("gbc", "gac"):
             shape, alat, alon, ra, rb, ang = self.areas[arg]
-            hst = {"gbc": {"circle": GeoBroadcastHST.GEOBROADCAST_CIRCLE, "rect": GeoBroadcastHST.GEOBROADCAST_RECT,
-                           "elip": GeoBroadcastHST.GEOBROADCAST_ELIP},
-                   "gac": {"circle": GeoAnycastHST.GEOANYCAST_CIRCLE, "rect": GeoAnycastHST.GEOANYCAST_RECT,
-                           "elip": GeoAnycastHST.GEOANYCAST_ELIP}}[tr][shape]
             ptt = PacketTransportType(header_type=HeaderType.GEOBROADCAST if tr == "gbc" else HeaderType.GEOANYCAST,
-                                      header_subtype=hst)
+                                      header_subtype=SHAPE_HST[tr][shape])
             kw["gn_area"] = Area(latitude=alat, longitude=alon, a=ra, b=rb, angle=ang)
         else:
             ptt = PacketTransportType(header_type=HeaderType.GEOUNICAST, header_subtype=HeaderSubType.UNSPECIFIED)
             kw["gn_destination_address"] = self.st[arg].mib.itsGnLocalGnAddr
-        breq = BTPDataRequest(
+        return BTPDataRequest(
             btp_type=CommonNH.BTP_B if req["btpB"] else CommonNH.BTP_A,
             destination_port=req["dport"],
             destination_port_info=req["info"] if req["btpB"] else 0,
             source_port=0 if req["btpB"] else req["info"],
             gn_packet_transport_type=ptt, data=bytes(req["payload"]), length=len(req["payload"]),
             gn_max_hop_limit=req["hl"], traffic_class=TrafficClass(scf=bool(req["scf"])), **kw)
+
+    def marks(self):
+        return {k: len(v) for k, v in self.hits.items()}
+
+    def news(self, before):
+        return {k: [self.canon(h, k) for h in hs[before[k]:]] for k, hs in self.hits.items()}
+
+    def issue(self, reqs):
+        """hand the requests [(i, req)] to their stations back to back, then let the medium deliver everything.
+        returns (canonical new deliveries per station, error)"""
+        before = self.marks()
         err = None
         try:
-            with rs.quiet():
-                self.st[i].btp.btp_data_request(breq)
+            for i, req in reqs:
+                with rs.quiet():
+                    self.st[i].btp.btp_data_request(self.btp_request(req))
             self.settle()
         except Infra:
             raise
         except Exception as e:  # noqa: BLE001
             err = f"{type(e).__name__}: {e}"
             self.ether.queue.clear()
-        new = {}
-        for k, h in self.hits.items():
-            new[k] = [self.canon(ind, p) for p, ind in h[before[k]:]]
-        return new, err
+            self.ether.pairs.clear()
+        return self.news(before), err
 
-    def canon(self, ind, port):
+    def area_id(self, tr, hst, area):
+        for a, (shape, alat, alon, ra, rb, ang) in self.areas.items():
+            if SHAPE_HST[tr][shape] == hst and area is not None and \
+                    (area.latitude, area.longitude, area.a, area.b, area.angle) == (alat, alon, ra, rb, ang):
+                return a
+        return "?"
+
+    def canon(self, hit, k):
+        port, ind, gi = hit
         ht = ind.gn_packet_transport_type.header_type
-        kind = {HeaderType.TSB: "shb", HeaderType.GEOBROADCAST: "gbc", HeaderType.GEOANYCAST: "gac",
-                HeaderType.GEOUNICAST: "guc"}.get(ht, str(ht))
+        hst = ind.gn_packet_transport_type.header_subtype
+        tr = {HeaderType.TSB: "shb", HeaderType.GEOBROADCAST: "gbc", HeaderType.GEOANYCAST: "gac",
+              HeaderType.GEOUNICAST: "guc"}.get(ht, str(ht))
+        if tr == "shb":
+            kind = "shb" if hst == TopoBroadcastHST.SINGLE_HOP else f"tsb{hst}"
+        elif tr in ("gbc", "gac"):
+            kind = f"{tr}{self.area_id(tr, hst, getattr(gi, 'destination_area', None))}"
+        elif tr == "guc":
+            kind = f"guc{k}"
+        else:
+            kind = tr
         pv = ind.gn_source_position_vector
-        so = next((k for k, s in self.st.items() if s.mib.itsGnLocalGnAddr.encode() == pv.gn_addr.encode()), -1)
-        btpb = 1 if ind.source_port == 0 and not getattr(ind, "_btpa", False) else 0
+        so = next((j for j, s in self.st.items() if s.mib.itsGnLocalGnAddr.encode() == pv.gn_addr.encode()), -1)
+        nh = getattr(gi, "upper_protocol_entity", None)
+        btpb = 1 if nh == CommonNH.BTP_B else 0 if nh == CommonNH.BTP_A else -1
         return (ind.destination_port, ind.destination_port_info, ind.source_port, bytes(ind.data).hex() or "-",
-                so, pv.latitude + 900000000, kind)
+                so, lpv_int(pv), kind, btpb)
+
+    # ---- known finding C01-KF1: decided from the state BEFORE the request, never from its outcome ----
+    def kf1_applies(self, i, req):
+        """store-carry-forward bit set and the source operation would have to buffer: the sender's location table
+        holds no neighbour, or (non-area forwarding) no neighbour is closer to the destination than the sender"""
+        if not req["scf"]:
+            return False
+        s = self.st[i]
+        nb = []
+        for e in s.gn.location_table.get_neighbours():
+            j = next((j for j, t in self.st.items() if t.mib.itsGnLocalGnAddr.encode() == e.position_vector.gn_addr.encode()), None)
+            if j is not None:
+                nb.append(j)
+        tr, arg = req["tr"], req["arg"]
+        if tr == "guc" and s.gn.location_table.get_entry(self.st[arg].mib.itsGnLocalGnAddr) is None:
+            # goes through the location service first; the buffered packet is sent when the reply arrives, and the
+            # reply (a multi-hop packet) clears the neighbour flag of the destination
+            nb = [j for j in nb if j != arg]
+        if not nb:
+            return True
+        if tr == "shb":
+            return False
+        if tr in ("gbc", "gac"):
+            if self.inside[(arg, i)]:
+                return False     # area forwarding
+            dest = (self.areas[arg][1], self.areas[arg][2])
+        else:
+            dest = self.pos[arg]
+        mine = dist_m(self.pos[i], dest)
+        return not any(dist_m(self.pos[j], dest) < mine for j in nb)
+
+
+def exp_tuple(net, i, req):
+    kind = "shb" if req["tr"] == "shb" else f"{req['tr']}{req['arg']}"
+    return (req["dport"], req["info"] if req["btpB"] else 0, 0 if req["btpB"] else req["info"],
+            bytes(req["payload"]).hex() or "-", i, net.lpv[i], kind, 1 if req["btpB"] else 0)
 
 
 def expected_deliveries(net, i, req):
@@ -163,34 +275,36 @@ def expected_deliveries(net, i, req):
         if k == i or k in net.ether.down:
             continue
         tr, arg = req["tr"], req["arg"]
-        addressed = (tr == "shb" or (tr in ("gbc", "gac") and net.inside[(arg, k)]) or (tr == "guc" and arg == k))
+        addressed = ((tr == "shb" and net.ether.hears(i, k))      # single hop: stations in radio range of the sender
+                     or (tr in ("gbc", "gac") and net.inside[(arg, k)]) or (tr == "guc" and arg == k))
         if addressed and req["dport"] in net.ports[k]:
-            exp[k].append((req["dport"], req["info"] if req["btpB"] else 0, 0 if req["btpB"] else req["info"],
-                           bytes(req["payload"]).hex() or "-", i, net.pos[i] + 900000000, tr))
+            exp[k].append(exp_tuple(net, i, req))
     return exp
 
 
-def model_line(i, req, blocked):
+def model_req(op, i, req, blocked, seed=None):
     pl = bytes(req["payload"]).hex() or "-"
-    return f"req {i} {1 if req['btpB'] else 0} {req['dport']} {req['info']} {pl} {req['tr']} {req['arg']} {req['hl']} {1 if blocked else 0}"
+    tail = "" if seed is None else f" {seed}"
+    return (f"{op} {i} {1 if req['btpB'] else 0} {req['dport']} {req['info']} {pl} {req['tr']} {req['arg']} {req['hl']} "
+            f"{1 if blocked else 0}{tail}")
 
 
-def parse_model(out, net):
-    res = {k: [] for k in net.st}
+def parse_model(out, keys):
+    res = {k: [] for k in keys}
+    out = out.replace(" !fuel", "")
     if out == "none":
         return res
     for item in out.split(" "):
         k, d = item.split(":", 1)
         port, info, btpb, pl, so, pos, kind = d.split("/")
-        kind = kind.rstrip("0123456789")
         port, info, btpb = int(port), int(info), int(btpb)
-        res[int(k)].append((port, info if btpb else 0, 0 if btpb else info, pl, int(so), int(pos), kind))
+        res[int(k)].append((port, info if btpb else 0, 0 if btpb else info, pl, int(so), int(pos), kind, btpb))
     return res
 
 
 def gen_request(ctx, n, allow_scf=False):
     i = ctx.rng.randrange(1, n + 1)
-    tr = ctx.rng.choice(["shb", "gbc", "gbc", "gac", "guc", "guc", "guc"])
+    tr = ctx.rng.choice(["shb", "gbc", "gbc", "gac", "gac", "guc", "guc", "guc"])
     arg = 0
     if tr in ("gbc", "gac"):
         arg = ctx.rng.choice([1, 2, 3, 4])
@@ -227,13 +341,27 @@ def ls_retransmissions(net, n0):
     return out
 
 
+def unpack(req):
+    return dict(req, payload=list(bytes.fromhex(req["payload"])))
+
+
+def merge(ds, keys):
+    out = {k: [] for k in keys}
+    for d in ds:
+        for k, v in d.items():
+            out[k] += v
+    return out
+
+
 def run_programme(clock, spec):
-    """spec: dict(centre, cbf, stations[{i,lat,lon,near,ports}], steps) — fully explicit.  steps:
-    [i, req] request at station i | ["adv", ms] | ["down", k] / ["up", k] station k leaves / re-enters radio range"""
+    """spec: dict(centre, cbf, order, stations[{i,lat,lon,near,ports}], steps) — fully explicit.  steps:
+    [i, req] request at station i, then everything is delivered | ["burst", [[i, req], …]] several requests back to
+    back, then everything is delivered | ["adv", ms] | ["down", k] / ["up", k] station k leaves / re-enters radio range
+    | ["setsn", i, n] set station i's sequence number counter (wrap-around programmes)"""
     clock.ms = BASE_MS
     net = Net(clock, spec)
     lines = list(net.lines)
-    reals = []      # per model-compared step: (i, req | None, new, exp | None, err, blocked, n_model_lines)
+    reals = []      # per compared step: dict(kind, i, reqs, new, exp, err, blocked, nlines, kf1, inflight)
     deferred = {}   # station that is down -> payloads it must receive once it is back (unicast via location service)
     try:
         for step in spec["steps"]:
@@ -244,31 +372,56 @@ def run_programme(clock, spec):
                 if step[0] == "down":
                     deferred.setdefault(k, [])
                 continue
-            before = {k: len(v) for k, v in net.hits.items()}
+            if step[0] == "setsn":
+                net.st[step[1]].gn.sequence_number = step[2]
+                lines.append(f"setsn {step[1]} {step[2]}")
+                continue
+            before = net.marks()
             if step[0] == "adv":
                 n0 = len(net.ether.log)
                 net.vt.advance(step[1], after_each=net.ether.pump)
                 net.settle()
-                new = {k: [net.canon(ind, p) for p, ind in h[before[k]:]] for k, h in net.hits.items()}
+                new = net.news(before)
                 retx = ls_retransmissions(net, n0)
                 for (snd, de) in retx:
-                    lines.append(f"lsretx {snd} {de}")
+                    lines.append(f"lsretx {snd} {de} {net.seed()}")
                 exp = {k: [] for k in net.st}
+                inflight = 0
                 for k in list(deferred):
                     if k not in net.ether.down and new.get(k):
                         exp[k] = deferred.pop(k)     # everything queued for k must arrive, in order, exactly once
-                reals.append((0, None, new, exp, None, False, len(retx)))
+                        inflight = max(inflight, len(exp[k]))
+                reals.append(dict(kind="adv", i=0, reqs=[], new=new, exp=exp, err=None, blocked=[], nlines=len(retx),
+                                  kf1=[], inflight=inflight))
                 continue
-            i, req = step
-            req = dict(req, payload=list(bytes.fromhex(req["payload"])))
-            new, err = net.issue(i, req)
-            exp = expected_deliveries(net, i, req)
-            if req["tr"] == "guc" and req["arg"] in net.ether.down and req["dport"] in net.ports[req["arg"]]:
-                deferred[req["arg"]].append((req["dport"], req["info"] if req["btpB"] else 0, 0 if req["btpB"] else req["info"],
-                                             bytes(req["payload"]).hex() or "-", i, net.pos[i] + 900000000, "guc"))
-            blocked = bool(req["scf"]) and new != exp and not any(new.values())
-            lines.append(model_line(i, req, blocked))
-            reals.append((i, req, new, exp, err, blocked, 1))
+            if step[0] == "burst":
+                reqs = [(i, unpack(r)) for i, r in step[1]]
+            else:
+                reqs = [(step[0], unpack(step[1]))]
+            kf1 = [net.kf1_applies(i, r) for i, r in reqs]
+            exp = merge([expected_deliveries(net, i, r) for i, r in reqs], net.st)
+            new, err = net.issue(reqs)
+            for (i, r) in reqs:
+                if r["tr"] == "guc" and r["arg"] in net.ether.down and r["dport"] in net.ports[r["arg"]]:
+                    deferred[r["arg"]].append(exp_tuple(net, i, r))
+            # scf + lookup first (kf1 undecided): the flush is subject to the same stub; decided by what the
+            # sender's location table held when the request was issued is not possible -> such requests are not
+            # generated (gen_spec), an explicit programme with one is compared without the model
+            blocked = [bool(b) for b in kf1]
+            if len(reqs) == 1:
+                lines.append(model_req("req", reqs[0][0], reqs[0][1], blocked[0], net.seed()))
+                nl = 1
+            else:
+                for (i, r), b in zip(reqs, blocked):
+                    lines.append(model_req("reqq", i, r, b))
+                lines.append(f"drain {net.seed()}")
+                nl = len(reqs) + 1
+            per_src = {}
+            for i, r in reqs:
+                if r["tr"] != "shb":
+                    per_src[i] = per_src.get(i, 0) + 1
+            reals.append(dict(kind="burst" if len(reqs) > 1 else "req", i=reqs[0][0], reqs=reqs, new=new, exp=exp, err=err,
+                              blocked=blocked, nlines=nl, kf1=kf1, inflight=max(per_src.values(), default=0)))
         # whatever is still owed to a station that came back must have been delivered by the end of the programme
         owed = {k: v for k, v in deferred.items() if v and k not in net.ether.down}
     finally:
@@ -276,20 +429,26 @@ def run_programme(clock, spec):
     return net, lines, reals, owed
 
 
-def gen_spec(ctx, hemisphere, nsteps, scf=False):
-    n = ctx.rng.choice([2, 2, 3, 4])
+def gen_spec(ctx, hemisphere, nsteps, scf=False, n=None):
+    n = n or ctx.rng.choice([2, 3, 3, 4, 4, 5])
     clat = ctx.rng.randrange(10_0000000, 60_0000000) * (1 if hemisphere[0] else -1)
     clon = ctx.rng.randrange(1_0000000, 170_0000000) * (1 if hemisphere[1] else -1)
     stations = []
     for i in range(1, n + 1):
-        near = ctx.rng.random() < 0.6
+        near = ctx.rng.random() < 0.65
         d = ctx.rng.uniform(0, 60) if near else ctx.rng.uniform(800, 1400)
         ang = ctx.rng.uniform(0, 2 * math.pi)
         lat, lon = offset(clat, clon, d * math.cos(ang), d * math.sin(ang))
         ports = sorted(set(ctx.rng.sample(PORT_POOL, ctx.rng.randrange(1, len(PORT_POOL)))))
         stations.append({"i": i, "lat": lat, "lon": lon, "near": near, "ports": ports})
+    # medium: FIFO, or asynchronous with a seeded random delivery order per (receiver, frame) pair
+    order = 0 if ctx.rng.random() < 0.35 else ctx.rng.randrange(1, 2 ** 30)
     steps, total_adv = [], 0
-    if n >= 2 and not scf and ctx.rng.random() < 0.5:
+    if not scf and ctx.rng.random() < 0.3:
+        # sequence numbers about to wrap (get_sequence_number: modulo 65535)
+        for i in ctx.rng.sample(range(1, n + 1), ctx.rng.randrange(1, n + 1)):
+            steps.append(["setsn", i, SN_MOD - ctx.rng.randrange(1, 6)])
+    if n >= 2 and not scf and ctx.rng.random() < 0.4:
         # a station that nobody has heard yet is out of range for a while: unicast requests to it (from ONE source)
         # wait in the location-service buffer, other traffic goes on; when it is back the lookup succeeds on the
         # next retransmission and the buffered requests must arrive in order
@@ -311,114 +470,293 @@ def gen_spec(ctx, hemisphere, nsteps, scf=False):
         steps += [["up", d], ["adv", 1000], ["adv", 1000]]
         total_adv += 2000
     for _ in range(nsteps):
-        if ctx.rng.random() < 0.2 and total_adv < 12000:
+        u = ctx.rng.random()
+        if u < 0.15 and total_adv < 12000:
             ms = ctx.rng.choice([1000, 1000, 2000])
             total_adv += ms
             steps.append(["adv", ms])
+        elif u < 0.40 and not scf:
+            # several requests in the air together: lookups are answered while other traffic is in flight, unicast
+            # requests are issued while a lookup for their destination is pending; at most 6 multi-hop packets per
+            # source (duplicate ring of 8, see C01-KF2)
+            burst, per_src = [], {}
+            for _ in range(ctx.rng.randrange(2, 6)):
+                r = gen_request(ctx, n)
+                if burst and ctx.rng.random() < 0.4:     # same source, same unicast destination as the previous one
+                    prev = burst[-1]
+                    r[0] = prev[0]
+                    if prev[1]["tr"] == "guc":
+                        r[1]["tr"], r[1]["arg"] = "guc", prev[1]["arg"]
+                    elif r[1]["tr"] == "guc" and r[1]["arg"] == r[0]:
+                        r[1]["arg"] = next(k for k in range(1, n + 1) if k != r[0])
+                if per_src.get(r[0], 0) < 3:
+                    per_src[r[0]] = per_src.get(r[0], 0) + 1
+                    burst.append(r)
+            steps.append(["burst", burst] if len(burst) > 1 else burst[0])
         else:
             steps.append(gen_request(ctx, n, allow_scf=scf))
-    return {"centre": [clat, clon], "cbf": ctx.rng.random() < 0.4, "stations": stations, "steps": steps}
+    return {"centre": [clat, clon], "cbf": ctx.rng.random() < 0.4, "order": order, "stations": stations, "steps": steps}
+
+
+def gen_line_spec(ctx, hemisphere, nsteps):
+    """line topology 1 - 2 - 3 (- 4): only neighbours on the line hear each other, so every multi-hop packet has to be
+    forwarded (`forwardCopy`, hop-limit handling and the forward branches of `receive` become observable).  All
+    stations are inside every area (forwarding INTO an area from outside is C06's subject); GeoAnycast is not
+    generated (one in-area receiver absorbs it: the others legitimately never see it)."""
+    n = ctx.rng.choice([3, 3, 4])
+    clat = ctx.rng.randrange(10_0000000, 60_0000000) * (1 if hemisphere[0] else -1)
+    clon = ctx.rng.randrange(1_0000000, 170_0000000) * (1 if hemisphere[1] else -1)
+    ang = ctx.rng.uniform(0, 2 * math.pi)
+    stations = []
+    for i in range(1, n + 1):
+        d = -45 + 90.0 * (i - 1) / (n - 1)
+        lat, lon = offset(clat, clon, d * math.cos(ang), d * math.sin(ang))
+        ports = sorted(set(ctx.rng.sample(PORT_POOL, ctx.rng.randrange(2, len(PORT_POOL)))))
+        stations.append({"i": i, "lat": lat, "lon": lon, "near": True, "ports": ports})
+    steps = []
+    for _ in range(nsteps):
+        r = gen_request(ctx, n)
+        if r[1]["tr"] == "gac":
+            r[1]["tr"] = "gbc"
+        if r[1]["hl"] in (2, 3) and n == 4:
+            r[1]["hl"] = 10       # the hop limit must cover the line (reachability within the hop limit: C06)
+        if r[1]["hl"] == 2:
+            r[1]["hl"] = 3
+        steps.append(r)
+    return {"centre": [clat, clon], "cbf": False, "order": 0 if ctx.rng.random() < 0.5 else ctx.rng.randrange(1, 2 ** 30),
+            "links": [[i, i + 1] for i in range(1, n)], "stations": stations, "steps": steps}
+
+
+def compass_spec(ctx, hemisphere, near):
+    """sender at the area centre, four receivers exactly north / south / east / west of it — all inside (60 m) or all
+    outside (800–1400 m) — and every area shape as GBC and GAC: the sign of each relative coordinate is exercised
+    with every shape in every run"""
+    clat = ctx.rng.randrange(10_0000000, 60_0000000) * (1 if hemisphere[0] else -1)
+    clon = ctx.rng.randrange(1_0000000, 170_0000000) * (1 if hemisphere[1] else -1)
+    stations = [{"i": 1, "lat": clat, "lon": clon, "near": True, "ports": [2001]}]
+    for i, (dn, de) in enumerate([(1, 0), (-1, 0), (0, 1), (0, -1)], start=2):
+        d = ctx.rng.uniform(30, 60) if near else ctx.rng.uniform(800, 1400)
+        lat, lon = offset(clat, clon, d * dn, d * de)
+        stations.append({"i": i, "lat": lat, "lon": lon, "near": near, "ports": [2001]})
+    steps = []
+    for tr in ("gbc", "gac"):
+        for area in (1, 3, 4):
+            steps.append([1, {"btpB": True, "dport": 2001, "info": area, "payload": bytes([area]).hex(), "tr": tr,
+                              "arg": area, "hl": 10, "scf": False}])
+    return {"centre": [clat, clon], "cbf": False, "order": 0, "stations": stations, "steps": steps}
+
+
+def kf2_applies(spec, rec):
+    """duplicate packet list ring: more than DPL_LEN multi-hop packets of one source in flight and a third station
+    that forwards them"""
+    return len(spec["stations"]) >= 3 and rec["inflight"] > DPL_LEN
+
+
+def judge_step(ctx, spec, idx, rec, report):
+    """oracle for one step; report(what, fid)"""
+    new, exp = rec["new"], rec["exp"]
+    if rec["kind"] == "adv":
+        # FIFO medium: the buffered requests arrive in request order; asynchronous medium: each exactly once
+        norm = sorted if spec.get("order") else list
+        if any(norm(new.get(k, [])) != norm(v) for k, v in exp.items() if v) or any(new[k] and not exp[k] for k in new):
+            report("deliveries after a location-service retransmission differ from the requests buffered for the "
+                   f"destination: got { {k: len(v) for k, v in new.items()} } want { {k: len(v) for k, v in exp.items()} }",
+                   "C01-KF2" if kf2_applies(spec, rec) else None)
+        return
+    if rec["err"]:
+        report(f"request at station {rec['i']} raised {rec['err']}", None)
+        return
+    trs = "+".join(r["tr"] for _, r in rec["reqs"])
+    if rec["kind"] == "req":
+        if new != exp:
+            i, req = rec["reqs"][0]
+            fid = "C01-KF1" if (req["scf"] and rec["kf1"][0] and not any(new.values())) else None
+            report(f"{trs} from station {i}: handler invocations { {k: len(v) for k, v in new.items()} } differ from "
+                   f"prescribed { {k: len(v) for k, v in exp.items()} }{' (SCF set, nothing sent)' if fid else ''}", fid)
+        return
+    # burst: exactly once (multiset) …
+    if any(sorted(new[k]) != sorted(exp[k]) for k in new):
+        report(f"burst {trs}: handler invocations { {k: len(v) for k, v in new.items()} } differ from prescribed "
+               f"{ {k: len(v) for k, v in exp.items()} } (as multisets)", "C01-KF2" if kf2_applies(spec, rec) else None)
+        return
+    # … and on a FIFO medium in request order per (sender, destination of the request)
+    if not spec.get("order") and not spec["cbf"]:
+        for k in new:
+            groups = {(i, r["tr"], r["arg"]) for (i, r) in rec["reqs"]}
+            for key in sorted(groups):
+                want = [d for d in exp[k] if (d[4], d[6]) == (key[0], "shb" if key[1] == "shb" else f"{key[1]}{key[2]}")]
+                got = [d for d in new[k] if (d[4], d[6]) == (key[0], "shb" if key[1] == "shb" else f"{key[1]}{key[2]}")]
+                if got != want:
+                    report(f"burst {trs}: station {k} was handed the payloads of station {key[0]} for destination "
+                           f"{key[1]}{key[2]} out of request order", None)
+                    return
 
 
 def judge(ctx, spec, reals, model_out, owed):
     pos = 0
-    for idx, (i, req, new, exp, err, blocked, nlines) in enumerate(reals):
+    for idx, rec in enumerate(reals):
         ctx.evals()
         case = {"kind": "programme", "spec": spec, "upto": idx}
-        mo_lines = model_out[pos:pos + nlines] if model_out is not None else None
-        pos += nlines
-        if req is None:       # clock advance (location-service retransmissions may fire)
+        mo_lines = model_out[pos:pos + rec["nlines"]] if model_out is not None else None
+        pos += rec["nlines"]
+        new, exp = rec["new"], rec["exp"]
+        if rec["kind"] == "adv":
             ctx.cover("adv_steps")
             if any(exp.values()):
                 ctx.cover("deferred_flushes")
                 ctx.nontrivial(("flush", idx, tuple(len(v) for v in exp.values())))
-            if any(new.get(k, []) != v for k, v in exp.items() if v) or any(new[k] and not exp[k] for k in new):
-                ctx.violation("deliveries after a location-service retransmission differ from the requests buffered for the "
-                              f"destination: got { {k: len(v) for k, v in new.items()} } want { {k: len(v) for k, v in exp.items()} }", case)
         else:
-            ctx.cover("req_" + req["tr"])
-            ctx.cover("payload_len_%s" % ("0" if not req["payload"] else "1-3" if len(req["payload"]) <= 3 else
-                                          ">=1399" if len(req["payload"]) >= 1399 else "mid"))
-            if err:
-                ctx.violation(f"request at station {i} raised {err}", case)
-                continue
-            if new != exp:
-                fid = "C01-KF1" if (req["scf"] and blocked) else None
-                got = {k: len(v) for k, v in new.items()}
-                want = {k: len(v) for k, v in exp.items()}
-                ctx.violation(f"{req['tr']} from station {i}: handler invocations {got} differ from prescribed {want}"
-                              f"{' (SCF set, nothing sent)' if fid else ''}", case, fid)
+            for _, req in rec["reqs"]:
+                ctx.cover("req_" + req["tr"])
+                ctx.cover("payload_len_%s" % ("0" if not req["payload"] else "1-3" if len(req["payload"]) <= 3 else
+                                              ">=1399" if len(req["payload"]) >= 1399 else "mid"))
+            if rec["kind"] == "burst":
+                ctx.cover("bursts")
+                if any(r["tr"] == "guc" for _, r in rec["reqs"]):
+                    ctx.cover("bursts_with_unicast")
+            for (_, req) in rec["reqs"]:
+                if req["tr"] == "gac" and sum(1 for k in exp if any(d[6] == f"gac{req['arg']}" for d in exp[k])) >= 2:
+                    ctx.cover("gac_several_in_area_receivers")
             if any(exp.values()):
-                ctx.nontrivial(("req", req["tr"], req["arg"], req["btpB"], len(req["payload"]), req["dport"],
-                                len(spec["stations"]), spec["cbf"], idx))
-        if mo_lines is not None:
-            mo = {k: [] for k in new}
-            for ln in mo_lines:
-                for k, v in parse_model(ln, Obj(new)).items():
-                    mo[k] += v
-            if mo != new:
+                r0 = rec["reqs"][0][1]
+                ctx.nontrivial((rec["kind"], r0["tr"], r0["arg"], r0["btpB"], len(r0["payload"]), r0["dport"],
+                                len(spec["stations"]), spec["cbf"], bool(spec.get("order")), idx))
+        judge_step(ctx, spec, idx, rec, lambda what, fid: ctx.violation(what, case, fid))
+        if mo_lines is not None and not any(b is None for b in rec["kf1"]):
+            mo = merge([parse_model(ln, new) for ln in mo_lines if ln != "ok"], new)
+            same = (mo == new) if rec["kind"] == "req" or not spec.get("order") else \
+                all(sorted(mo[k]) == sorted(new[k]) for k in new)
+            if not same:
                 ctx.mismatch("net.deliveries", case, {str(k): v for k, v in new.items()}, mo_lines)
     if owed:
         ctx.violation(f"unicast requests buffered during a location-service lookup were never delivered: "
                       f"{ {k: len(v) for k, v in owed.items()} }", {"kind": "programme", "spec": spec, "upto": len(reals)})
 
 
-def steps_upto(spec, idx):
-    """number of programme steps up to and including request number idx"""
-    k = -1
-    for n, st in enumerate(spec["steps"]):
-        if st[0] not in ("down", "up"):
-            k += 1
-            if k == idx:
-                return n + 1
-    return len(spec["steps"])
+class Batch:
+    """programmes are run on the real stacks one by one; the model driver is started once per batch"""
+
+    def __init__(self, ctx, clock, size):
+        self.ctx, self.clock, self.size, self.items = ctx, clock, size, []
+
+    def add(self, spec):
+        net, lines, reals, owed = run_programme(self.clock, spec)
+        self.items.append((spec, ["reset"] + lines, reals, owed))
+        if len(self.items) >= self.size:
+            self.flush()
+        return reals
+
+    def flush(self):
+        ctx, items, self.items = self.ctx, self.items, []
+        if not items:
+            return
+        outs = None
+        if ctx.model_ok:
+            allines = [l for _, lines, _, _ in items for l in lines]
+            out = ctx.model("Net", allines)
+            if len(out) != len(allines):
+                raise Infra("model driver: wrong number of output lines")
+            bad = [l for l, o in zip(allines, out) if o == "bad-op"]
+            if bad:
+                raise Infra("model driver rejected a line: " + repr(bad[:2]))
+            outs, pos = [], 0
+            for _, lines, _, _ in items:
+                o = out[pos:pos + len(lines)]
+                pos += len(lines)
+                outs.append([x for l, x in zip(lines, o) if l.startswith(("req ", "reqq ", "drain ", "lsretx "))])
+        for n, (spec, lines, reals, owed) in enumerate(items):
+            judge(ctx, spec, reals, outs[n] if outs is not None else None, owed)
+            ctx.cover("programmes")
+            ctx.cover(f"stations_{len(spec['stations'])}")
+            ctx.cover("cbf" if spec["cbf"] else "simple")
+            ctx.cover("medium_async" if spec.get("order") else "medium_fifo")
+            if spec.get("links"):
+                ctx.cover("line_topology")
+            if any(s[0] == "setsn" for s in spec["steps"]):
+                ctx.cover("sn_wrap_programmes")
 
 
-class Obj:
-    def __init__(self, new):
-        self.st = new
+def out_of_time(ctx, fraction=0.5):
+    """stop generating new cases when `fraction` of the time budget of the run is used"""
+    budget = float(os.environ.get("VERIF_TIMEOUT_S", "3300" if ctx.thorough else "1500"))
+    if time.time() - ctx.t0 > fraction * budget:
+        ctx.extra["truncated_by_time"] = True
+        return True
+    return False
 
 
-def one_run(ctx, clock, hemi, nsteps, scf=False):
-    spec = gen_spec(ctx, hemi, nsteps, scf)
-    net, lines, reals, owed = run_programme(clock, spec)
-    model_out = None
-    if ctx.model_ok:
-        out = ctx.model("Net", ["reset"] + lines)
-        model_out = [o for l, o in zip(["reset"] + lines, out) if l.startswith(("req ", "lsretx "))]
-    judge(ctx, spec, reals, model_out, owed)
-    ctx.cover("programmes")
-    ctx.cover(f"stations_{len(spec['stations'])}")
-    ctx.cover("cbf" if spec["cbf"] else "simple")
-    return spec, reals
+def kf2_spec(nreq=DPL_LEN + 1):
+    """three stations, FIFO medium; station 2 is out of range while station 1 queues nreq unicast requests for it;
+    when it is back the location service answers, the buffer is flushed, station 3 forwards every packet: more than
+    itsGnDPLLength packets of station 1 are in flight and station 2's duplicate ring has forgotten the first ones when
+    station 3's copies arrive"""
+    clat, clon = 415000000, 21000000
+    sts = []
+    for i in (1, 2, 3):
+        lat, lon = offset(clat, clon, 10.0 * i, 5.0 * i)
+        sts.append({"i": i, "lat": lat, "lon": lon, "near": True, "ports": [2001]})
+    steps = [["down", 2]]
+    for k in range(nreq):
+        steps.append([1, {"btpB": True, "dport": 2001, "info": 0, "payload": bytes([k]).hex(), "tr": "guc", "arg": 2,
+                          "hl": 10, "scf": False}])
+    steps += [["up", 2], ["adv", 1000], ["adv", 1000]]
+    return {"centre": [clat, clon], "cbf": False, "order": 0, "stations": sts, "steps": steps}
 
 
 def run(ctx):
     ctx.extra["rule"] = ("random request programmes (SHB/GBC/GAC/GUC incl. unicast to never-heard stations → location "
-                         "service, requests issued while a lookup is pending, BTP-A/B, ports from a pool incl. 0/65535 and "
-                         "unregistered ones, payload lengths 0,1,2,3,…,1399,1400 with random/zero/ones fill, hop limits, clock "
-                         "advances) on 2–4 real stacks, both hemispheres, SIMPLE and CBF; distinct_nontrivial = distinct "
-                         "(transport, BTP type, payload length, port, n, algorithm, position) of requests that had to be delivered")
+                         "service, requests issued while a lookup is pending, bursts of overlapping requests, BTP-A/B, ports "
+                         "from a pool incl. 0/65535 and unregistered ones, payload lengths 0,1,2,3,…,1399,1400 with "
+                         "random/zero/ones fill, hop limits, clock advances, SN wrap) on 2–5 real stacks, FIFO or randomly "
+                         "ordered asynchronous medium, both hemispheres, SIMPLE and CBF; distinct_nontrivial = distinct "
+                         "(kind, transport, BTP type, payload length, port, n, algorithm, medium, position) of steps that had "
+                         "to deliver something")
     signed = signed_coordinates_ok()
     ctx.extra["signed_coordinates_encodable"] = signed
     with rs.VClock(BASE_MS) as clock:
         if not signed:
             ctx.violation("stations in the southern/western hemisphere cannot originate packets: negative latitude/longitude "
                           "raise OverflowError in LongPositionVector.encode (see C02)", {"kind": "signed"})
+        batch = Batch(ctx, clock, ctx.scale(16, 40))
+        for name, c in corpus("C01"):
+            if c.get("kind") == "programme":
+                batch.add(c["spec"])
+                ctx.cover("corpus_cases")
+        # duplicate ring overflow (known finding C01-KF2; real stacks and the model's ring semantics agree on it):
+        # corpus/C01/kf2_dpl_ring_overflow.json, run here explicitly if the corpus file is missing
+        if not any(c.get("spec") == kf2_spec() for _, c in corpus("C01")):
+            batch.add(kf2_spec())
         hemis = [(True, True), (False, True), (True, False), (False, False)] if signed else [(True, True)]
-        nprog = ctx.scale(24, 600)
+        for k, hemi in enumerate(hemis if ctx.thorough else [hemis[ctx.seed % len(hemis)]]):
+            batch.add(compass_spec(ctx, hemi, near=False))
+            batch.add(compass_spec(ctx, hemi, near=True))
+            ctx.cover("compass_programmes", 2)
+        nprog = ctx.scale(26, 400)
         first = None
         for k in range(nprog):
-            spec, reals = one_run(ctx, clock, hemis[k % len(hemis)], ctx.rng.randrange(4, ctx.scale(14, 40)))
+            if out_of_time(ctx):
+                break
+            # every fourth programme has at least three stations, every fifth five
+            n = 5 if k % 5 == 4 else (ctx.rng.choice([3, 4, 5]) if k % 4 == 1 else None)
+            spec = gen_spec(ctx, hemis[k % len(hemis)], ctx.rng.randrange(4, ctx.scale(12, 30)), n=n)
+            reals = batch.add(spec)
             if first is None and reals:
-                first = {"stations": spec["stations"], "cbf": spec["cbf"], "centre": spec["centre"],
-                         "first_steps": [[s[0], {kk: (vv if kk != "payload" else f"{len(vv) // 2} octets") for kk, vv in s[1].items()}]
-                                         if isinstance(s[1], dict) else list(s) for s in spec["steps"][:6]]}
+                first = {"stations": spec["stations"], "cbf": spec["cbf"], "centre": spec["centre"], "order": spec["order"],
+                         "first_steps": [str(s)[:160] for s in spec["steps"][:6]]}
         if first:
             ctx.sample("programme", first)
-        # store-carry-forward stream (known finding C01-KF1), judged by the oracle; model run with the `blocked` bit
+        # store-carry-forward stream (known finding C01-KF1): the stub applies when the sender's location table holds
+        # no neighbour / no neighbour with progress BEFORE the request (decided from that state, not from the outcome)
         for k in range(ctx.scale(4, 40)):
-            one_run(ctx, clock, hemis[k % len(hemis)], 6, scf=True)
+            if out_of_time(ctx, 0.6):
+                break
+            batch.add(gen_spec(ctx, hemis[k % len(hemis)], 6, scf=True))
+        # line topology: every multi-hop packet must be forwarded
+        for k in range(ctx.scale(5, 40)):
+            if out_of_time(ctx, 0.65):
+                break
+            batch.add(gen_line_spec(ctx, hemis[k % len(hemis)], ctx.rng.randrange(4, 9)))
+        batch.flush()
 
 
 def search(ctx):
@@ -428,8 +766,13 @@ def search(ctx):
         with rs.VClock(BASE_MS) as clock:
             signed = signed_coordinates_ok()
             hemis = [(True, True), (False, True), (True, False), (False, False)] if signed else [(True, True)]
+            batch = Batch(ctx, clock, 1)
             for k in range(ctx.scale(80, 900)):
-                one_run(ctx, clock, hemis[k % len(hemis)], ctx.rng.randrange(6, 30))
+                if out_of_time(ctx, 0.8):
+                    break
+                batch.add(gen_spec(ctx, hemis[k % len(hemis)], ctx.rng.randrange(6, 30),
+                                   n=(None if k % 2 else ctx.rng.choice([3, 4, 5]))))
+            batch.flush()
     finally:
         ctx.model_ok = ok
 
@@ -441,16 +784,16 @@ def replay(ctx, obj):
     spec = case["spec"]
     with rs.VClock(BASE_MS) as clock:
         net, lines, reals, owed = run_programme(clock, spec)
-    bad = bool(owed)
-    for i, req, new, exp, err, blocked, _ in reals:
-        if req is None:
-            if any(new.get(k, []) != v for k, v in exp.items() if v) or any(new[k] and not exp[k] for k in new):
-                print("adv: got", {k: len(v) for k, v in new.items()}, "want", {k: len(v) for k, v in exp.items()})
-                bad = True
-        elif err or (new != exp and not (req["scf"] and blocked)):
-            print("station", i, req["tr"], "got", {k: len(v) for k, v in new.items()}, "want",
-                  {k: len(v) for k, v in exp.items()}, err)
-            bad = True
+    bad = [False]
+
+    for idx, rec in enumerate(reals):
+        def report(what, fid, idx=idx):
+            if fid == "C01-KF1":
+                return
+            print(f"step {idx}: {what}")
+            bad[0] = True
+        judge_step(ctx, spec, idx, rec, report)
     if owed:
         print("never delivered:", {k: len(v) for k, v in owed.items()})
-    return bad
+        bad[0] = True
+    return bad[0]
